@@ -691,6 +691,19 @@ class Run:
         rs = rng.randrange(1 << 30)
         r = rng.random()
         live = self.usable()
+        # follow-up: another call on the collection touched last, re-using the items of that call (interplay of pending additions / removals)
+        lc = getattr(self, 'last_coll_gen', None)
+        if lc is not None and rng.random() < 0.3 and lc[0] in live:
+            oid, key, its = lc
+            tgt = self.usable(w.sides[w.rev(key)]['ent'])
+            if w.schema['rels'][key[0]]['sym']: tgt = [x for x in tgt if x != oid]
+            pool = [x for x in its if x in tgt] + sorted(x for x in sh.partners(oid, key) if x in tgt)
+            if pool and tgt:
+                k = rng.choice(['add', 'remove', 'remove', 'set', 'set'])
+                items = sorted(set(rng.choice(pool) if rng.random() < 0.75 else rng.choice(tgt) for _ in range(rng.choice([1, 2, 3]))))
+                op = {'k': 'coll_' + k, 'o': oid, 'key': list(key), 'items': items, 'via': rng.choice(['list', 'single', 'op']), 'rs': rs}
+                self.last_coll_gen = (oid, key, sorted(set(its) | set(items)))
+                return op
         if r < 0.24 or not live:
             return self.gen_create(rs)
         if r < 0.36:
@@ -719,6 +732,7 @@ class Run:
                     elif tgt: x = rng.choice(tgt)
                     else: continue
                     if x not in items: items.append(x)
+                self.last_coll_gen = (oid, key, sorted(items))
                 return {'k': 'coll_' + k, 'o': oid, 'key': list(key), 'items': sorted(items),
                         'via': rng.choice(['list', 'list', 'single', 'op']), 'rs': rs}
         if r < 0.80: return {'k': 'delete', 'o': rng.choice(live), 'rs': rs}
@@ -873,7 +887,7 @@ class Run:
                 self.sync_seeds()
         self.last_coll_op = (op.get('o'), tuple(op['key']) if 'key' in op else None, k) if k.startswith('coll_') else getattr(self, 'last_coll_op', None)
         if k.startswith('coll_'): self.coll_hist.setdefault((op['o'], tuple(op['key'])), []).append(k)
-        if self.do_reads and self.rrng.random() < 0.55: self.reads()
+        if self.do_reads and self.rrng.random() < 0.4: self.reads()
 
     abandoned = False
     def model_abandon(self, why):
@@ -926,7 +940,7 @@ class Run:
             self.model_checks.append(snap)
             self.prev_index = self.real_indexed()
         if not self.in_session: self.enter()
-        if self.do_reads and not self.stop and self.rrng.random() < 0.55: self.reads()
+        if self.do_reads and not self.stop and self.rrng.random() < 0.4: self.reads()
 
     epoch = 0
     def after_abort(self, why):
